@@ -548,6 +548,9 @@ def r13_creator_addresses(cx):
         # new offset = last offset + content size
         oo = gb.origins(po[0][1]["args"][1])
         ok = ok and any(x[0] == "call" and call_is(gb.term(x[1]), r"InputReader>::size$") for x in oo) and ("field", "offsets") in oo
+        # both vectors grow for EVERY content (they are indexed by the same blob number; `is_empty`, the blob count
+        # and the data written are computed from one or the other): no successful path skips a push
+        ok = ok and gb.must_pass_before_return({pd[0][0]}) and gb.must_pass_before_return({po[0][0]})
     cx.ob("R13", "R13/ClusterCreator.add_content", ok, g, "the blob index is offsets.len() before the push; data and cumulative end offset are pushed for that same content")
     h = F.one(impl_self="ContentPackCreator", item="finalize", closure=False)
     hb = F.body(h)
